@@ -93,6 +93,9 @@ pub fn yield_now() {
         #[cfg(not(may_verif))]
         return std::thread::yield_now();
     }
+    // tell a serialising harness that this is a polling loop
+    #[cfg(may_verif)]
+    crate::verif::thread::yield_now();
     let y = Yield {};
     // it's safe to use the stack value here
     yield_with(&y);
